@@ -56,6 +56,20 @@ def run(ctx, spec):
             y0 = P[1] if which == 1 else P[1][0]
             ctx.classes['%s.parity/%s' % (g, 'even' if y0 % 2 == 0 else 'odd')] += 1
             regs = [(rep, gen.point(pr, rng, which, kk, rep)) for rep in gen.REPS]
+            if rng.random() < 0.3:
+                # history template: Fr::inverse of a scalar directly before encoding a representative whose z has the same internal limbs
+                m = rng.getrandbits(250) | 1
+                if which == 2:
+                    # G2 inverts the norm z0^2 + 2 z1^2 of z in Fq: take z = (z0, 0) with z0^2 having the internal limbs m
+                    while rm.fq_sqrt(rm.unmont(m, q)) is None:
+                        m = rng.getrandbits(250) | 1
+                lamz = rm.unmont(m, q) if which == 1 else (rm.fq_sqrt(rm.unmont(m, q)), 0)
+                Z = pr.let(g + '.lit', rm.jac_lit(F, P, lamz))[0]
+                fmt0 = rng.choice(FMTS)
+                pr.emit('_', 'fr.inverse', rm.h32(rm.unmont(m, r)))
+                i = pr.emit('_', '%s.to_%s' % (g, fmt0), Z)
+                exp[i] = ('%s.to_%s/scaled' % (g, fmt0), 'bytes ' + encode(which, P, fmt0), (which, fmt0, kk, 'alias'))
+                ctx.count('cross-type-alias-template')
             for fmt in FMTS:
                 want = encode(which, P, fmt)
                 for rep, reg in regs:
